@@ -184,4 +184,34 @@ theorem refMaterialize_natural (ρ : α → α') (xs : List α) (e : End) :
     refMaterialize (xs.map ρ) e = mapN (Notif.map ρ) (refMaterialize xs e) := by
   cases e <;> simp [refMaterialize, mapN, Notif.map, Function.comp_def]
 
+theorem refTakeWhileIdx_natural (ρ : α → α') (p : α → Nat → Except Err Bool) (p' : α' → Nat → Except Err Bool)
+    (hp : ∀ x i, p' (ρ x) i = p x i) (incl : Bool) (i : Nat) (xs : List α) (e : End) :
+    refTakeWhileIdx p' incl i (xs.map ρ) e = mapN ρ (refTakeWhileIdx p incl i xs e) := by
+  induction xs generalizing i with
+  | nil => simp [refTakeWhileIdx]
+  | cons x xs ih =>
+    simp only [List.map_cons, refTakeWhileIdx, hp]
+    cases p x i with
+    | error er => rfl
+    | ok b => cases b <;> cases incl <;> simp [ih, mapN_cons_next, mapN, Notif.map]
+
+theorem refSkipWhileIdx_natural (ρ : α → α') (p : α → Nat → Except Err Bool) (p' : α' → Nat → Except Err Bool)
+    (hp : ∀ x i, p' (ρ x) i = p x i) (i : Nat) (xs : List α) (e : End) :
+    refSkipWhileIdx p' i (xs.map ρ) e = mapN ρ (refSkipWhileIdx p i xs e) := by
+  induction xs generalizing i with
+  | nil => simp [refSkipWhileIdx]
+  | cons x xs ih =>
+    simp only [List.map_cons, refSkipWhileIdx, hp]
+    cases p x i with
+    | error er => rfl
+    | ok b =>
+      cases b
+      · simp only [Bool.false_eq_true, if_false]; rw [← List.map_cons, mapN_outSeq]
+      · simp [ih]
+
+theorem cut_mapN (ρ : α → α') (l : List (Notif α)) : cut (mapN ρ l) = mapN ρ (cut l) := by
+  induction l with
+  | nil => rfl
+  | cons n l ih => cases n <;> simp_all [mapN, Notif.map]
+
 end Ops
